@@ -110,6 +110,8 @@ pub trait LibG: Group + std::fmt::Debug {
     /// Jacobian coordinates as lists of canonical 32-byte field encodings, real part first
     /// for Fq2 (read through real()/imaginary(), not through the Fq2 byte layout)
     fn jac_coords(&self) -> (Vec<[u8; 32]>, Vec<[u8; 32]>, Vec<[u8; 32]>);
+    /// (x, y, 1) through the public constructor, from canonical coordinate parts (real first)
+    fn from_affine_parts(x: &[[u8; 32]], y: &[[u8; 32]]) -> Option<Self>;
 }
 
 impl LibG for G1 {
@@ -163,6 +165,12 @@ impl LibG for G1 {
     }
     fn jac_coords(&self) -> (Vec<[u8; 32]>, Vec<[u8; 32]>, Vec<[u8; 32]>) {
         (vec![self.x().to_slice()], vec![self.y().to_slice()], vec![self.z().to_slice()])
+    }
+    fn from_affine_parts(x: &[[u8; 32]], y: &[[u8; 32]]) -> Option<Self> {
+        if x.len() != 1 || y.len() != 1 {
+            return None;
+        }
+        Some(G1::new(Fq::from_slice(&x[0])?, Fq::from_slice(&y[0])?, Fq::one()))
     }
 }
 
@@ -225,6 +233,14 @@ impl LibG for G2 {
     fn jac_coords(&self) -> (Vec<[u8; 32]>, Vec<[u8; 32]>, Vec<[u8; 32]>) {
         let f = |v: Fq2| vec![v.real().to_slice(), v.imaginary().to_slice()];
         (f(self.x()), f(self.y()), f(self.z()))
+    }
+    fn from_affine_parts(x: &[[u8; 32]], y: &[[u8; 32]]) -> Option<Self> {
+        if x.len() != 2 || y.len() != 2 {
+            return None;
+        }
+        let fx = Fq2::new(Fq::from_slice(&x[0])?, Fq::from_slice(&x[1])?);
+        let fy = Fq2::new(Fq::from_slice(&y[0])?, Fq::from_slice(&y[1])?);
+        Some(G2::new(fx, fy, Fq2::one()))
     }
 }
 
@@ -414,6 +430,7 @@ fn group_step<G: LibG>(bank: &mut Bank<G>, fr: &[(Fr, BigUint)], op: &GOp, n: us
             let sub = matches!(op, GOp::Sub { .. });
             let eff_bk = if sub { model::mneg(&bk, r) } else { bk.clone() };
             res.reach(format!("{}|{}|{}|{}", nm, av.repr_class(), bv.repr_class(), relation(&ak, &eff_bk)));
+            res.reach(format!("rel|{}|{}", G::NAME, relation(&ak, &eff_bk)));
             let v = if sub { av - bv } else { av + bv };
             let k = if sub { model::msub(&ak, &bk, r) } else { model::madd(&ak, &bk, r) };
             bank.regs[*dst % n] = (v, k);
@@ -579,6 +596,8 @@ fn observe_pair(st: &mut St, prop: &str, i: usize, j: usize, budget: u64, res: &
     let (p, k1) = st.g1.regs[i].clone();
     let (q, k2) = st.g2.regs[j].clone();
     let exp = expected_pair(st, prop, &k1, &k2);
+    // model-side reach tuple (independent of the representation the library happens to use)
+    res.reach(format!("pairobs|{}|{}", if k1.is_zero() { "O" } else { "P" }, if k2.is_zero() { "O" } else { "P" }));
     let mut outcome = Vec::new();
     let mut results: Vec<(&'static str, Vec<u8>)> = Vec::new();
     let entries: [(&'static str, Box<dyn Fn() -> Gt>); 3] = [
@@ -765,6 +784,7 @@ pub fn exec(spec: &GrpSpec, prop: &str) -> RunResult {
                     let (p, k1) = st.g1.regs[*g1 % n].clone();
                     let k2 = st.prep[s].1.clone();
                     res.reach(format!("{}|{}", opname, p.repr_class()));
+                    res.reach(format!("prepobs|{}|{}", if k1.is_zero() { "O" } else { "P" }, if k2.is_zero() { "O" } else { "P" }));
                     let g = st.prep[s].0.pairing(&p).to_slice().to_vec();
                     st.reuse[s] += 1;
                     let exp = expected_pair(&mut st, prop, &k1, &k2);
@@ -1052,9 +1072,10 @@ pub fn generate(seed: u64, pairing_heavy: bool) -> GrpSpec {
     // swarm: op classes
     // 0 add/sub 1 neg/dbl 2 mul 3 normalize/affine/codec/copy 4 fr ops 5 rng 6 set gen/zero
     // 7 pair 8 prepared 9 rescale
-    let mut w: [u64; 10] = [8, 3, 5, 4, 3, 1, 1, 1, 0, 0];
+    // class 10: related-history templates (see below)
+    let mut w: [u64; 11] = [8, 3, 5, 4, 3, 1, 1, 1, 0, 0, 3];
     if pairing_heavy {
-        w = [6, 2, 3, 3, 2, 1, 1, 3, 6, 3];
+        w = [6, 2, 3, 3, 2, 1, 1, 3, 6, 3, 2];
     }
     for (i, x) in w.iter_mut().enumerate() {
         if i != 0 && !cfg.chance(4, 5) {
@@ -1157,7 +1178,67 @@ pub fn generate(seed: u64, pairing_heavy: bool) -> GrpSpec {
                 1 => ops.push(GOp::PrepClone { slot: pr.usize_below(m), from: pr.usize_below(m) }),
                 _ => ops.push(GOp::PrepPair { slot: pr.usize_below(m), g1: a }),
             },
-            _ => ops.push(GOp::Rescale { g, dst, lam: gen_lambda(&mut pr, g) }),
+            9 => ops.push(GOp::Rescale { g, dst, lam: gen_lambda(&mut pr, g) }),
+            _ => {
+                // related-history templates: registers whose values are related by construction
+                // (mirrored, sharing a Jacobian z, equal in two representations, opposite), so
+                // that the special-case branches of the adder and of == are met on purpose
+                let c = pr.usize_below(n);
+                let kk = hex(&be32(&scalar(&mut pr)));
+                match pr.below(7) {
+                    0 => {
+                        // commuted pair: A+B and B+A
+                        ops.push(GOp::Add { g, dst, a, b });
+                        ops.push(GOp::Add { g, dst: c, a: b, b: a });
+                    }
+                    1 => {
+                        // A+B and A-B share their z; then combine them
+                        ops.push(GOp::Add { g, dst, a, b });
+                        ops.push(GOp::Sub { g, dst: c, a, b });
+                        if pr.chance(1, 2) {
+                            ops.push(GOp::Add { g, dst: a, a: dst, b: c });
+                        } else {
+                            ops.push(GOp::Sub { g, dst: a, a: dst, b: c });
+                        }
+                    }
+                    2 => {
+                        // the same element in two representations, then added / subtracted
+                        ops.push(GOp::MulK { g, dst, a, k: kk, left: pr.chance(1, 2) });
+                        ops.push(GOp::Copy { g, dst: c, a: dst });
+                        ops.push(GOp::Normalize { g, dst: c });
+                        if pr.chance(1, 2) {
+                            ops.push(GOp::Add { g, dst: b, a: dst, b: c });
+                        } else {
+                            ops.push(GOp::Sub { g, dst: b, a: c, b: dst });
+                        }
+                    }
+                    3 => {
+                        // k*A and (r-k)*A: opposite points, both Jacobian
+                        let kv = from_be(&unhex(&kk)) % r;
+                        ops.push(GOp::MulK { g, dst, a, k: kk.clone(), left: false });
+                        ops.push(GOp::MulK { g, dst: c, a, k: hex(&be32(&model::mneg(&kv, r))), left: true });
+                        ops.push(GOp::Add { g, dst: b, a: dst, b: c });
+                    }
+                    4 => {
+                        // -(B-A) against A-B: mirrored subtraction
+                        ops.push(GOp::Sub { g, dst, a, b });
+                        ops.push(GOp::Sub { g, dst: c, a: b, b: a });
+                        ops.push(GOp::Neg { g, dst: c, a: c });
+                    }
+                    5 => {
+                        // two normalised points, both orders
+                        ops.push(GOp::Normalize { g, dst: a });
+                        ops.push(GOp::Normalize { g, dst: b });
+                        ops.push(GOp::Add { g, dst, a, b });
+                        ops.push(GOp::Add { g, dst: c, a: b, b: a });
+                    }
+                    _ => {
+                        // decode round trip of one operand, then add to the Jacobian original
+                        ops.push(GOp::Codec { g, dst: c, a, fmt: *pr.pick(&FMTS) });
+                        ops.push(GOp::Add { g, dst, a, b: c });
+                    }
+                }
+            }
         }
     }
     // always end with one observation so that every history is looked at through a pairing
